@@ -206,6 +206,32 @@ def sys_ties(rng):
     return "phreeqc.dat", t
 
 
+def dim_arrays(rng=None, fill=False):
+    """BASIC programs that DIM numeric arrays of several sizes and dimensions explicitly, fill only part of them and punch
+    EVERY element (the top one, all subscripts at their declared maximum, included) and sums: an element the program never
+    assigned must read 0, not what an earlier instance left in the heap. `fill=True` is the neighbour: the same shapes filled
+    completely with non-zero numbers (and released when the instance goes)."""
+    n1 = 5 if rng is None else rng.choice([3, 5, 17, 64])
+    t = "SOLUTION 1\n pH 7\n Na 1\n Cl 1\nSELECTED_OUTPUT 1\n -reset false\n -high_precision true\nUSER_PUNCH 1\n -headings a b c d sums\n"
+    t += " 10 DIM a(%d), b(3, 4), c(2, 2, 2), d(40)\n" % n1
+    if fill:
+        t += " 20 FOR i = 0 TO %d\n 21 a(i) = 7.77e33 + i\n 22 NEXT i\n 30 FOR i = 0 TO 3\n 31 FOR j = 0 TO 4\n 32 b(i, j) = -1.5e-7 * (i + 1) * (j + 1)\n 33 NEXT j\n 34 NEXT i\n" % n1
+        t += " 40 FOR i = 0 TO 2\n 41 FOR j = 0 TO 2\n 42 FOR k = 0 TO 2\n 43 c(i, j, k) = 123456.789\n 44 NEXT k\n 45 NEXT j\n 46 NEXT i\n 50 FOR i = 0 TO 40\n 51 d(i) = 3.14159 * (i + 1)\n 52 NEXT i\n"
+    else:
+        t += " 20 FOR i = 1 TO %d\n 21 a(i) = i\n 22 NEXT i\n 30 b(1, 1) = 2.5\n 31 b(2, 3) = b(3, 4) + 1\n 40 c(1, 1, 1) = c(2, 2, 2) + 4\n 50 FOR i = 1 TO 20\n 51 d(i) = d(40) + i\n 52 NEXT i\n" % (n1 - 1)
+    t += ' 60 o$ = ""\n 61 s = 0\n 62 FOR i = 0 TO %d\n 63 o$ = o$ + STR$(a(i)) + "|"\n 64 s = s + a(i)\n 65 NEXT i\n 66 PUNCH o$\n' % n1
+    t += ' 70 o$ = ""\n 71 FOR i = 0 TO 3\n 72 FOR j = 0 TO 4\n 73 o$ = o$ + STR$(b(i, j)) + "|"\n 74 s = s + b(i, j)\n 75 NEXT j\n 76 NEXT i\n 77 PUNCH o$\n'
+    t += ' 80 o$ = ""\n 81 FOR i = 0 TO 2\n 82 FOR j = 0 TO 2\n 83 FOR k = 0 TO 2\n 84 o$ = o$ + STR$(c(i, j, k)) + "|"\n 85 s = s + c(i, j, k)\n 86 NEXT k\n 87 NEXT j\n 88 NEXT i\n 89 PUNCH o$\n'
+    t += ' 90 o$ = ""\n 91 FOR i = 0 TO 40\n 92 o$ = o$ + STR$(d(i)) + "|"\n 93 s = s + d(i)\n 94 NEXT i\n 95 PUNCH o$, s, a(%d), b(3, 4), c(2, 2, 2), d(40)\n' % n1
+    t += "USER_PRINT\n 10 DIM p(7)\n 20 p(1) = 1\n 30 PRINT \"top\", p(7), p(0), p(1)\nEND\n"
+    return "phreeqc.dat", t
+
+
+def fixed_dim_jobs():
+    """(neighbour that fills the arrays, the partially filled program)"""
+    return [("dim_fill",) + dim_arrays(None, True), ("dim_arrays",) + dim_arrays(None, False)]
+
+
 def fixed_tie_job():
     return ("sys_ties",) + sys_ties(None)
 
@@ -216,7 +242,7 @@ FAMILIES = [("speciation", speciation), ("exchange_surface", exchange_surface), 
             ("pitzer", pitzer), ("solid_solution", solid_solution), ("dump_store", dump_store), ("isotopes", isotopes),
             ("sit", sit), ("llnl", llnl), ("cd_music", cd_music), ("kinetics_db_rate", kinetics_rates_db),
             ("diffuse_layer", diffuse_layer), ("donnan", donnan), ("pitzer_etheta", pitzer_etheta), ("gas_pr", gas_pr),
-            ("ss_nonideal", ss_nonideal), ("sys_ties", sys_ties)]
+            ("ss_nonideal", ss_nonideal), ("sys_ties", sys_ties), ("dim_arrays", lambda r: dim_arrays(r, r.random() < 0.4))]
 
 # engine paths that are rarely used and keep scratch state of their own between calls (integrator estimates, cached function
 # arguments, solver work arrays): a burst runs SEVERAL jobs of ONE such family on several threads at the same time, so that a
